@@ -99,6 +99,9 @@ fn templates() -> Vec<Template> {
         Template { name: "/lit/{p}?k0&k1", segs: vec![Lit("lit"), Param], keys: vec!["k0", "k1"], producer: None, pushes: None },
         Template { name: "/a/b?list*3", segs: vec![Lit("a"), Lit("b")], keys: vec!["list", "list", "list"], producer: None, pushes: None },
         Template { name: "/{p}?k0&list*2&k1", segs: vec![Param], keys: vec!["k0", "list", "list", "k1"], producer: None, pushes: None },
+        // more pairs than a small-sort threshold: 2 scalars around a 40-element list, keys not in
+        // ascending order (values of one key must keep their order on the server side)
+        Template { name: "/lit?zz&list*40&aa", segs: vec![Lit("lit")], keys: { let mut k = vec!["zz"]; k.extend(std::iter::repeat("list").take(40)); k.push("aa"); k }, producer: None, pushes: None },
         // macro-derived clients: literals and query keys with characters of every encode-set level
         Template {
             name: "macro:/w/a b/{p}/x%y/{r}/q?z/h#i/{s}/end&=+,;?k&=y&p q#r+s%t?u/v&plain",
@@ -520,6 +523,20 @@ pub fn run(args: &Args) -> Report {
     let mut jobs: Vec<(usize, Vec<String>)> = vec![];
     for (ti, t) in ts.iter().enumerate() {
         let n = t.positions();
+        if n > 12 {
+            // the long-list template: distinct values everywhere (a permutation must show), one
+            // position at a time over the reduced alphabet
+            let defaults: Vec<String> = (0..n).map(|i| format!("v{} /&=", i)).collect();
+            jobs.push((ti, defaults.clone()));
+            for pos in 0..n {
+                for v in &reduced {
+                    let mut vals = defaults.clone();
+                    vals[pos] = v.clone();
+                    jobs.push((ti, vals));
+                }
+            }
+            continue;
+        }
         for pos in 0..n {
             for v in &one_position {
                 let mut vals = vec!["d".to_string(); n];
